@@ -1,0 +1,45 @@
+//! Verification hooks (feature `verif-hooks`, default off, add-only).
+//!
+//! A thread-local log of the Fiat-Shamir operations performed by
+//! [`TranscriptGadget`](super::transcript_gadget) during a synthesis on this thread: the
+//! kind of every absorb / read / squeeze, in order. Nothing here changes the behaviour of
+//! unguarded code.
+
+use std::cell::RefCell;
+
+/// One operation of the in-circuit transcript.
+#[derive(Clone, Copy, Debug, PartialEq, Eq)]
+pub enum TranscriptEvent {
+    /// `common_scalar`: one field element absorbed.
+    CommonScalar,
+    /// `common_point`: a point absorbed as the given number of field elements.
+    CommonPoint(usize),
+    /// `squeeze_challenge`.
+    Squeeze,
+    /// `read_point`: a point taken from the proof (always followed by its `CommonPoint`).
+    ReadPoint,
+    /// `read_scalar`: a scalar taken from the proof (always followed by its `CommonScalar`).
+    ReadScalar,
+}
+
+thread_local! {
+    static LOG: RefCell<Option<Vec<TranscriptEvent>>> = const { RefCell::new(None) };
+}
+
+/// Starts (or restarts) recording on this thread.
+pub fn transcript_log_start() {
+    LOG.with(|l| *l.borrow_mut() = Some(vec![]));
+}
+
+/// Stops recording and returns the events since the start.
+pub fn transcript_log_take() -> Vec<TranscriptEvent> {
+    LOG.with(|l| l.borrow_mut().take()).unwrap_or_default()
+}
+
+pub(crate) fn transcript_log(e: TranscriptEvent) {
+    LOG.with(|l| {
+        if let Some(log) = l.borrow_mut().as_mut() {
+            log.push(e);
+        }
+    });
+}
